@@ -41,15 +41,26 @@ def parseOp (t : String) : Option (Op Nat) :=
   | ["N"] => some .length
   | _ => none
 
+/-- `J:k=v,k=v` — UnmarshalJSON into the map in use: specified as Clear followed by one Store per entry of the document -/
+def parseRestore (t : String) : Option (List (Op Nat)) :=
+  match t.splitOn ":" with
+  | ["J", body] =>
+    if body == "-" then some [.clear] else
+    ((body.splitOn ",").mapM (fun (kv : String) => match kv.splitOn "=" with
+      | [k, v] => (String.toNat? v).map (fun n => Op.store k n)
+      | _ => none)).map (fun l => Op.clear :: l)
+  | _ => none
+
 def vmapLine (toks : List String) : String :=
   match toks with
   | "vmap" :: ops =>
-    match ops.mapM parseOp with
+    -- every token is one operation, or (J) a group of operations reported as one
+    match ops.mapM (fun t => match parseRestore t with | some l => some (true, l) | none => (parseOp t).map (fun o => (false, [o]))) with
     | none => "bad-op"
-    | some ops =>
-      let (outs, _) := ops.foldl (fun (acc : List String × St Nat) op =>
-        let (r, s') := step acc.2 op
-        (acc.1 ++ [retStr r ++ " @ " ++ shape s'], s')) ([], init)
+    | some groups =>
+      let (outs, _) := groups.foldl (fun (acc : List String × St Nat) (grp : Bool × List (Op Nat)) =>
+        let (r, s') := grp.2.foldl (fun (rs : Ret Nat × St Nat) op => step rs.2 op) (.unit, acc.2)
+        (acc.1 ++ [(if grp.1 then "-" else retStr r) ++ " @ " ++ shape s'], s')) ([], init)
       " ; ".intercalate outs
   | _ => "bad-op"
 
